@@ -24,7 +24,7 @@ PROP = {
     "assumptions": ["allocator instances 0..3 with identity-based equality (or is_always_equal), select_on_container_copy_construction in three modes (identity, to another instance, to the default instance); "
                     "std::pmr::polymorphic_allocator over three instrumented memory resources, resource 0 being the default resource",
                     "swap of arrays whose allocators are unequal and do not propagate on swap is excluded (undefined for standard containers as well)",
-                    "zero-based extents; D = 1..3, and array<T,0> (about 7% of the programs; non-propagating allocators in the three select_on_container_copy_construction modes, std::pmr; int and Semi elements in the trivial modes) with the forms whose code mirrors the D >= 1 code of the model: construction from extensions / from an element, copy construction, copy assignment, assignment of an element, destruction; move construction and move assignment of a 0-D array (element-wise, source stays alive) are not exercised; no failures injected (C09 does that)"],
+                    "zero-based extents; D = 1..3, and array<T,0> (about 7% of the programs; non-propagating allocators in the three select_on_container_copy_construction modes, std::pmr; int and Semi elements in the trivial modes) with the forms whose code mirrors the D >= 1 code of the model: construction from extensions / from an element, copy construction, copy assignment, assignment of an element, destruction; move construction and move assignment of a 0-D array (element-wise, source stays alive) are not exercised; the theorems assume 1 <= D (Cfg.OK), so for D = 0 the model is the executable reference of the correspondence only (validated, not proved); no failures injected (C09 does that)"],
     "rule": lc.RULE,
     "level_text": ("Theorems (all 16 trait configurations + select_on_container_copy_construction modes, all allocator instances, all histories): for the tree with every repair "
                    "(F6, F7, F8, F9d, F9, F9c) the FULL statement `alloc_safe_fixed`: along every history every block is owned by, and was released through, an allocator equal to the one "
